@@ -150,6 +150,20 @@ def _docstring(r: Any, fmt: str, n0: int, params: List[str], allow_param: bool, 
             else:
                 lines += ['Note', '----', f'{words(1)} *unclosed{t} {words(1)}']
             plants.append(Plant('markup-nonfatal', 'unclosed' + t, 0, len(lines) - 1))
+    elif allow_param and params and r.random() < .5:
+        # a type specification the type mini-language cannot read (google/numpy process types by definition)
+        t = tok()
+        lines.append('')
+        bad = r.choice(['list[', '{x', 'dict[str, (int', "{'a', 'b'"])
+        order = list(params)
+        r.shuffle(order)
+        pn, good = order[0], order[1:] if r.random() < .6 else []
+        # well-typed parameters first (each becomes two fields once converted), the unreadable type last
+        if fmt == 'google':
+            lines += ['Args:'] + [f'    {g} (int): {words(2)}' for g in good] + [f'    {pn} ({bad}): {words(2)}']
+        else:
+            lines += ['Parameters', '----------'] + [ln for g in good for ln in (f'{g} : int', f'    {words(2)}')] + [f'{pn} : {bad}', f'    {words(2)}']
+        plants.append(Plant('type-error', t, 0, len(lines) - (1 if fmt == 'google' else 2)))
     elif cls and r.random() < .5:
         t = tok()
         lines.append('')
@@ -284,8 +298,9 @@ PAIRED = {
     'markup-fatal': "Unbalanced '{'",
     'consolidated': 'Unable to split consolidated field',
     'expr-unparsable': 'bad rendering of constant',
+    'type-error': ('in type expression', 'invalid value set', 'invalid type'),
 }
-UNPARSABLE = ('markup-nonfatal', 'markup-fatal', 'consolidated', 'expr-unparsable')
+UNPARSABLE = ('markup-nonfatal', 'markup-fatal', 'consolidated', 'expr-unparsable', 'type-error')
 
 SUB = """from mod{k} import K
 class S(K):
@@ -357,8 +372,16 @@ def _judge(res: core.Res, r: Any, fmt: str, label: str) -> None:
             pairs: List[Tuple[Plant, List[Any]]] = []
             for kind, needle in PAIRED.items():
                 ps = sorted([p for p in live if p.kind == kind], key=lambda p: p.tok_line)
-                ms = sorted([x for x in parsed if needle in x[2] and os.path.abspath(x[0]) == os.path.abspath(path) and x[1] != '???'], key=lambda x: int(x[1]))
+                needles = needle if isinstance(needle, tuple) else (needle,)
+                ms = sorted([x for x in parsed if any(nd in x[2] for nd in needles) and os.path.abspath(x[0]) == os.path.abspath(path) and x[1] != '???'], key=lambda x: int(x[1]))
                 # an inherited docstring is parsed once: no duplicates expected here
+                if kind == 'type-error':
+                    # not every unreadable type is reported with the same wording: pair by proximity to the docstring instead of by rank
+                    for p in ps:
+                        near = [x for x in ms if p.doc_lines[0] - 1 <= int(x[1]) <= p.doc_lines[1] + 4]
+                        pairs.append((p, near[:1]))
+                    claimed.update(id(x) for x in ms)
+                    continue
                 for n, p in enumerate(ps):
                     pairs.append((p, [ms[n]] if n < len(ms) else []))
                 if len(ms) > len(ps):
@@ -393,7 +416,10 @@ def _judge(res: core.Res, r: Any, fmt: str, label: str) -> None:
                         lo, hi = p.block_line, p.tok_line
                     else:
                         lo, hi = p.doc_lines
-                    if not (lo <= line <= hi):
+                    if p.kind == 'type-error' and fmt == 'google' and hi < line <= hi + 3:
+                        # the line is counted in the text the google section was converted to, where every typed argument takes two lines
+                        res.v('C16:line:google:type-error:counted-in-converted-text', f'{label}: type-error in {p.where} reported at line {line}, past the end of its docstring (lines {lo}..{hi}): {x[2][:80]}', **w)
+                    elif not (lo <= line <= hi):
                         res.v(f'C16:line:{fmt}:{p.kind}:{"before" if line < lo else "after"}{min(abs(line - lo), abs(line - hi))}', f'{label}: {p.kind} in {p.where} reported at line {line}, admissible lines {lo}..{hi} (token on line {p.tok_line}): {x[2][:80]}', **w)
             extra = [x for x in parsed if id(x) not in claimed]
             if extra:
